@@ -315,14 +315,21 @@ pub fn c06_internal_sets_family(rep: &mut Report) {
             }
         }
     }
-    // one crate whose two files each import a same-named type from a different crate
-    {
-        let files = [
+    // one crate whose two files each import a same-named type from a different crate; and the same with a third file
+    // that imports the name through a re-exporting crate typeshare knows nothing about (the import falls back to a
+    // crate that defines the name)
+    for with_facade in [false, true] {
+        let mut files = vec![
             SrcFile { crate_name: "alpha".into(), path: "alpha/src/lib.rs".into(), source: "#[typeshare]\npub struct Item { pub a: u32 }\n#[typeshare]\npub struct OnlyAlpha { pub x: u32 }\n".into() },
             SrcFile { crate_name: "beta".into(), path: "beta/src/lib.rs".into(), source: "#[typeshare]\npub struct Item { pub b: u32 }\n#[typeshare]\npub struct OnlyBeta { pub y: u32 }\n".into() },
             SrcFile { crate_name: "gamma".into(), path: "gamma/src/one.rs".into(), source: "use alpha::{Item, OnlyAlpha};\n#[typeshare]\npub struct FromAlpha { pub i: Item, pub o: OnlyAlpha }\n".into() },
             SrcFile { crate_name: "gamma".into(), path: "gamma/src/two.rs".into(), source: "use beta::{Item, OnlyBeta};\n#[typeshare]\npub struct FromBeta { pub i: Vec<Item>, pub o: OnlyBeta }\n".into() },
         ];
+        if with_facade {
+            files.remove(2);
+            files.push(SrcFile { crate_name: "gamma".into(), path: "gamma/src/three.rs".into(), source: "use facade::{Item, OnlyAlpha, OnlyBeta};\n#[typeshare]\npub struct ViaFacade { pub i: Option<Item>, pub a: OnlyAlpha, pub b: OnlyBeta }\n".into() });
+        }
+        let program = if with_facade { "same-named-type-imported-directly-and-through-an-unknown-re-export" } else { "same-named-type-imported-from-two-crates-in-two-files" };
         for &lang in &ALL_LANGS {
             let mut cfg = Cfg::plain();
             cfg.multi_file = true;
@@ -337,13 +344,13 @@ pub fn c06_internal_sets_family(rep: &mut Report) {
                 };
                 *outs.entry(key).or_insert(0) += 1;
             }
-            rows.push(json!({"program": "same-named-type-imported-from-two-crates-in-two-files", "lang": lang.name(), "fresh_seeds": attempts, "distinct_outputs": outs.len()}));
+            rows.push(json!({"program": program, "lang": lang.name(), "fresh_seeds": attempts, "distinct_outputs": outs.len()}));
             if outs.len() > 1 {
                 let mut it = outs.iter();
                 let x = it.next().unwrap();
                 let y = it.next().unwrap();
                 rep.vios.add(Violation {
-                    sig: format!("C06|nondeterministic-output|internal-collection-order|same-name-from-two-crates|{}", lang.name()),
+                    sig: format!("C06|nondeterministic-output|internal-collection-order|{}|{}", if with_facade { "same-name-direct-and-re-exported" } else { "same-name-from-two-crates" }, lang.name()),
                     detail: json!({"lang": lang.name(), "files": files.iter().map(|f| json!({"crate": f.crate_name, "path": f.path, "source": f.source})).collect::<Vec<_>>(), "distinct_outputs": outs.len(), "runs": attempts, "output_a": x.0, "times_a": x.1, "output_b": y.0, "times_b": y.1}),
                 });
             }
